@@ -102,6 +102,9 @@ MUTATIONS = [
  ('m77', 'C02', 'src/dynamics/transformed_hamiltonian.rs', r's/            if self\.kinetic_energy_kind == KineticEnergyKind::Microcanonical \{\n                math\.array_normalize\(&mut point\.velocity\);/            if self.kinetic_energy_kind != KineticEnergyKind::Microcanonical {\n                math.array_normalize(\&mut point.velocity);/', 'fresh momentum is normalised for the Euclidean kind and not for the microcanonical one (mutation campaign)'),
  ('m78', 'C05', 'src/dynamics/transformed_hamiltonian.rs', r's/        if !math\.array_all_finite\(&self\.untransformed_gradient\) \{\n            return false;\n        \}\n        if !math\.array_all_finite\(&self\.untransformed_position\) \{\n            return false;\n        \}\n        true\n    \}\n\n    fn check_all/        if math.array_all_finite(\&self.untransformed_gradient) {\n            return false;\n        }\n        if !math.array_all_finite(\&self.untransformed_position) {\n            return false;\n        }\n        true\n    }\n\n    fn check_all/', 'check_untransformed accepts exactly the non-finite gradients (mutation campaign)'),
  ('m79', 'C06', 'src/chain.rs', r's/            draw_count: 0,/            draw_count: 1,/', 'a new NUTS chain starts counting draws at 1 (mutation campaign)'),
+ ('e19', 'C07', 'src/stepsize/adapt.rs', r's/let dir = if accept_stat > self\.options\.target_accept \{/let dir = if accept_stat >= self.options.target_accept {/', 'NOT A VIOLATION: a tie between the first trial and the target is resolved the other way'),
+ ('e20', 'C05', 'src/external_adapt_strategy.rs', r's/            if energy_error > self\.max_energy_error \{\n                return;\n            \}\n\n            if !math\.array_all_finite\(point\.position\(\)\) \{\n                return;\n            \}\n            if !math\.array_all_finite\(point\.gradient\(\)\) \{\n                return;\n            \}\n\n            self\.draws\.push\(math\.copy_array\(point\.position\(\)\)\);\n            self\.grads\.push\(math\.copy_array\(point\.gradient\(\)\)\);\n            self\.logps\.push\(point\.logp\(\)\);\n        \}\n    \}\n\n    fn register_draw/            if energy_error >= self.max_energy_error {\n                return;\n            }\n\n            if !math.array_all_finite(point.position()) {\n                return;\n            }\n            if !math.array_all_finite(point.gradient()) {\n                return;\n            }\n\n            self.draws.push(math.copy_array(point.position()));\n            self.grads.push(math.copy_array(point.gradient()));\n            self.logps.push(point.logp());\n        }\n    }\n\n    fn register_draw/', 'NOT A VIOLATION: an energy error exactly at the limit is dropped by the flow collector'),
+ ('e21', 'C05', 'src/transform/adapt/diagonal.rs', r's/self\.is_good = idx\.abs\(\) > 4;/self.is_good = idx.abs() > 6;/', 'NOT A VIOLATION: divergent draws are rejected a little further from the start'),
  ('e01', 'C18', 'src/mclmc.rs', r's/&& self.draw_count == self.switch_draw/&& self.draw_count >= self.switch_draw/', 'EQUIVALENT on reachable states: must not be flagged'),
  ('e02', 'C08', 'src/math/cpu_math.rs', r's/\*mean \+= diff \* diff_scale;\n                \*var \+= diff \* diff;/*mean += diff * diff_scale;\n                *var += diff * (x - *mean);/', 'EQUIVALENT for the property (ratio of variances unchanged): must not be flagged'),
 ]
